@@ -15,13 +15,23 @@ theorem planClsUn_planned (w : World) (cfg : Cfg) (c c' : Nat) (fs : List (Strin
     · exact Or.inr (Or.inr h)
     · exact Or.inr (Or.inl ⟨_, rfl, h⟩)
 
-theorem planUnAny_planned (w : World) (cfg : Cfg) (v : HVal) (view : Option Cell) :
-    Planned v view (planUnAny w cfg v view) := by
+theorem planNTUn_planned (w : World) (hc : HCfg) (n c c' : Nat) (fs : List (String × HVal)) (v : HVal) :
+    Planned v (some (.inst c' fs)) (planNTUn w hc n c v fs) := by
+  unfold planNTUn
+  split
+  · exact Planned.build _ _ _ _ (fun x hx => Or.inr (Or.inl ⟨_, rfl, zipTasks_vals _ _ x hx⟩))
+  · exact Planned.ident v _
+
+theorem planUnAny_planned (w : World) (hc : HCfg) (n : Nat) (v : HVal) (view : Option Cell) :
+    Planned v view (planUnAny w hc n v view) := by
   unfold planUnAny
+  simp only []
   split
   · exact Planned.build _ _ _ _ (fun x hx => Or.inr (Or.inl ⟨_, rfl, mapTasks_vals _ _ x hx⟩))
   · exact Planned.build _ _ _ _ (fun x hx => Or.inr (Or.inl ⟨_, rfl, kvTasks_vals _ _ _ x hx⟩))
-  · exact planClsUn_planned w cfg _ _ _ v
+  · split
+    · exact planNTUn_planned w hc n _ _ _ v
+    · exact planClsUn_planned w hc.cfg _ _ _ v
   · exact Planned.ident v _
   · split
     · exact Planned.trivial rfl rfl
@@ -31,7 +41,8 @@ theorem planUn_planned (w : World) (hc : HCfg) (n : Nat) (t : Ty) (v : HVal) (vi
     Planned v view (planUn w hc n t v view) := by
   fun_induction planUn w hc n t v view
   all_goals first
-    | exact planUnAny_planned w _ _ _
+    | exact planUnAny_planned w _ _ _ _
+    | exact planNTUn_planned w _ _ _ _ _ _
     | exact Planned.ident _ _
     | exact Planned.trivial rfl rfl
     | assumption
@@ -92,7 +103,7 @@ theorem plan_planned (w : World) (hc : HCfg) (n : Nat) (call : Call) (v : HVal) 
   unfold plan
   split
   · exact planUn_planned w hc n _ v view
-  · exact planUnAny_planned w hc.cfg v view
+  · exact planUnAny_planned w hc n v view
   · exact planSt_planned w hc _ v view obj
   · exact Planned.ident v view
   · exact Planned.trivial rfl rfl
